@@ -102,12 +102,13 @@ func (c *Ctx) c16positions(n int) ([]v3, string) {
 }
 
 type c16set struct {
-	kind  string          // pt seg box tri
-	elems []trees.Element // the elements, index = original index
-	enc   string          // "<kind> <n> floats…" for the Lean model ("" = geometry not modelled)
-	verts []v3            // interesting positions for queries
-	build func(depth int) *trees.OctTree
-	mesh  *modeling.Mesh
+	kind    string          // pt seg box tri
+	elems   []trees.Element // the elements, index = original index
+	enc     string          // "<kind> <n> floats…" for the Lean model ("" = geometry not modelled)
+	verts   []v3            // interesting positions for queries
+	build   func(depth int) *trees.OctTree
+	mesh    *modeling.Mesh
+	intgrid bool // integer triangle vertices: queries are placed on integer points too
 }
 
 func c16scope(m modeling.Mesh) []trees.Element {
@@ -202,12 +203,21 @@ func (c *Ctx) c16elements() c16set {
 			}}
 	default: // triangle soup, some triangles repeated
 		m, tv, ti := c.c16triMesh(n)
-		c.Note("set.tri")
+		grid := c.Rng.Intn(4) == 0
+		if grid {
+			if n > 12 {
+				n = 12
+			}
+			m, tv, ti = c.c16triGridMesh(n)
+			c.Note("set.tri.intgrid")
+		} else {
+			c.Note("set.tri")
+		}
 		parts := make([]string, n)
 		for i := 0; i < n; i++ {
 			parts[i] = c16v(tv[ti[3*i]]) + " " + c16v(tv[ti[3*i+1]]) + " " + c16v(tv[ti[3*i+2]])
 		}
-		return c16set{kind: "tri", elems: c16scope(m), enc: fmt.Sprintf("tri %d %s", n, strings.Join(parts, " ")), verts: tv, mesh: &m,
+		return c16set{kind: "tri", elems: c16scope(m), enc: fmt.Sprintf("tri %d %s", n, strings.Join(parts, " ")), verts: tv, mesh: &m, intgrid: grid,
 			build: func(d int) *trees.OctTree {
 				if d < 0 {
 					return m.OctTree()
@@ -218,6 +228,25 @@ func (c *Ctx) c16elements() c16set {
 }
 
 // triangle mesh with n non-degenerate triangles; some triangles repeated, vertices shared
+// triangles with small integer vertices: exact collinearities between query points and edge lines occur
+func (c *Ctx) c16triGridMesh(n int) (modeling.Mesh, []v3, []int) {
+	verts := make([]v3, 0, 3*n)
+	idx := make([]int, 0, 3*n)
+	g := func() v3 {
+		return vector3.New(float64(c.Rng.Intn(7)-3), float64(c.Rng.Intn(7)-3), float64(c.Rng.Intn(3)-1))
+	}
+	for len(idx) < 3*n {
+		a, b, d := g(), g(), g()
+		if b.Sub(a).Cross(d.Sub(a)).Length() == 0 {
+			continue
+		}
+		base := len(verts)
+		verts = append(verts, a, b, d)
+		idx = append(idx, base, base+1, base+2)
+	}
+	return modeling.NewTriangleMesh(idx).SetFloat3Attribute(modeling.PositionAttribute, verts), verts, idx
+}
+
 func (c *Ctx) c16triMesh(n int) (modeling.Mesh, []v3, []int) {
 	ps, _ := c.c16positions(n + 2)
 	verts := make([]v3, 0, 3*n)
@@ -347,6 +376,11 @@ func (c *Ctx) c16octreeCase() {
 	nq := 3
 	for qi := 0; qi < nq; qi++ {
 		v, where := c.c16query(s, bounds)
+		if s.intgrid {
+			// integer query points: exactly on edge lines / their extensions, on vertices, in triangle planes
+			v = vector3.New(float64(c.Rng.Intn(9)-4), float64(c.Rng.Intn(9)-4), float64(c.Rng.Intn(3)-1))
+			where = "intgrid"
+		}
 		c.Note("query." + where)
 
 		// --- elements whose bounds contain the point
